@@ -6,7 +6,10 @@
 //!   gmsim digest <ID> <tier> [--serial]   print the run digest only (determinism proof)
 //!   gmsim journal-run <ID> <tier> <seed> <run> <file>   one run, in-flight schedule journalled
 
+mod findrare;
 mod gen_c14;
+mod gen_c19;
+mod gen_c20;
 mod gen_common;
 mod gen_sm2enc;
 mod gen_sm2kex;
@@ -76,6 +79,10 @@ fn main() {
         Some("check") => cmd_check(&args),
         Some("digest") => cmd_digest(&args),
         Some("journal-run") => cmd_journal_run(&args),
+        Some("find-rare") => {
+            findrare::main(args.get(2).and_then(|s| s.parse().ok()).unwrap_or(20));
+            0
+        }
         Some("c14-child") => {
             gen_c14::child_main(args.get(2).and_then(|s| s.parse().ok()).unwrap_or(2));
             0
@@ -204,7 +211,7 @@ fn cmd_check(args: &[String]) -> i32 {
     let mut harness_err = false;
     for (gi, (_, fs)) in groups.iter().enumerate() {
         n_viol += 1;
-        if gi >= 8 {
+        if gi >= 40 {
             continue; // enough replay files; the count is still reported
         }
         let f = &fs[0];
